@@ -124,6 +124,73 @@ fn write_regressions() {
             "constant:dims-product-overflows-* / iter::product overflow in checked builds",
         ),
         ("onnx-eleven-ff-bytes", Fmt::Onnx, vec![0xff; 11], "nonterminating-decode:*"),
+        (
+            "onnx-operator-output-named-like-initializer",
+            Fmt::Onnx,
+            {
+                let w = XTensor { dims: vec![2], data_type: Some(1), name: Some("y".into()), float_data: vec![1.0, 2.0], ..Default::default() };
+                let mut m = XModel {
+                    ir_version: Some(9),
+                    producer: None,
+                    graph: Some(XGraph {
+                        nodes: vec![XNode { inputs: vec!["x".into()], outputs: vec!["y".into()], name: Some("n".into()), op_type: Some("Relu".into()), domain: None, attrs: vec![] }],
+                        initializers: vec![w],
+                        inputs: vec![XValueInfo { name: Some("x".into()), elem_type: Some(1), shape: Some(vec![XDim::Value(2)]), sequence: false }],
+                        outputs: vec![],
+                        value_info: vec![],
+                    }),
+                    opsets: vec![(Some(String::new()), Some(20))],
+                    metadata: vec![],
+                };
+                // a second operator consumes y so that the graph has an output value
+                if let Some(g) = m.graph.as_mut() {
+                    g.nodes.push(XNode { inputs: vec!["y".into()], outputs: vec!["z".into()], name: Some("n2".into()), op_type: Some("Neg".into()), domain: None, attrs: vec![] });
+                    g.outputs.push(XValueInfo { name: Some("z".into()), elem_type: Some(1), shape: None, sequence: false });
+                }
+                m.encode()
+            },
+            "load-panic:onnx ... graph.rs value node not found (operator output is a constant node)",
+        ),
+        (
+            "rten-operator-input-is-an-operator-node",
+            Fmt::Rten,
+            rten(
+                vec![
+                    RNode::Value { name: Some("x".into()), shape: Some(vec![RDim::Fixed(2)]), dtype: Some(1) },
+                    value("y"),
+                    ident(0, 1),
+                    value("z"),
+                    RNode::Op { name: Some("relu".into()), op: OP_RELU, attrs: RAttrs::None, inputs: vec![2], outputs: vec![3] },
+                ],
+                vec![0],
+                vec![3],
+                false,
+            ),
+            "load-panic:rten ... infer_shapes.rs unreachable: operator input is not a value or constant",
+        ),
+        (
+            "rten-graph-output-is-an-operator-node",
+            Fmt::Rten,
+            rten(vec![RNode::Value { name: Some("x".into()), shape: Some(vec![RDim::Fixed(2)]), dtype: Some(1) }, value("y"), ident(0, 1)], vec![0], vec![2], true),
+            "graph output id refers to an operator node",
+        ),
+        (
+            "rten-operator-output-is-a-constant",
+            Fmt::Rten,
+            rten(
+                vec![
+                    RNode::Value { name: Some("x".into()), shape: Some(vec![RDim::Fixed(2)]), dtype: Some(1) },
+                    RNode::Const { name: Some("w".into()), shape: vec![2], dtype: Some(1), data: RData::F32(vec![1.0, 2.0]) },
+                    ident(0, 1),
+                    value("z"),
+                    RNode::Op { name: Some("neg".into()), op: OP_NEG, attrs: RAttrs::None, inputs: vec![1], outputs: vec![3] },
+                ],
+                vec![0],
+                vec![3],
+                false,
+            ),
+            "operator output index refers to a constant node",
+        ),
     ];
     for (name, fmt, bytes, what) in cases {
         let body = serde_json::json!({
